@@ -1436,8 +1436,12 @@ impl<'a> Parser<'a> {
         let mut i = 1;
         loop {
             match self.peek_ahead(i) {
-                Some(TokenKind::ParenBegin) => depth += 1,
-                Some(TokenKind::ParenEnd) => {
+                // commas inside nested parentheses, blocks/records (e.g. the arms of a
+                // `match`) and arrays do not belong to this parenthesis
+                Some(TokenKind::ParenBegin | TokenKind::BlockBegin | TokenKind::ArrayBegin) => {
+                    depth += 1
+                }
+                Some(TokenKind::ParenEnd | TokenKind::BlockEnd | TokenKind::ArrayEnd) => {
                     if depth == 0 {
                         return false; // no comma found
                     }
